@@ -10,14 +10,16 @@ from ..cfg import CFG
 from ..loops import dotted
 from ..nf import NF, Scope, Poly, parse_expr
 from ..repo import Repo, loc, short, AnalysisError, positional_params, param_names, ModuleInfo, bind_call
-from ..shapes import ShapeEngine, Fn, doc_shapes
+from ..shapes import ShapeEngine, Fn, doc_shapes, DrawShape
 from ..sem import same_ingredients
 
 EXPLANATION = (
     "Symbolic shapes are pushed through the vmapped log-variance bounding wrappers of GaussianMLPEnsemble (function values built in "
     "__init__ are interpreted: vmap strips / re-adds the mapped axis): every public prediction method must return mean and (log-)variance of "
     "identical shape (one variance per output), and the distribution built by base_distribution must get loc and scale of identical shape; "
-    "call sites are checked against the documented rank (ts_inf). Formula identities: aggregate == (mean_0 mu, mean_0 exp(lv) + var_0 mu); "
+    "the prediction methods are interpreted for batches and for a single input vector (the bounding function is found by its use: applied directly, through an attribute, helper methods / closures, or under vmaps); "
+    "the ts_inf call site is followed to the distribution it samples from. Plan evaluation is also interpreted with ordered merged axes (reshape merges in memory order, repeat = (axis, n), tile = (rep, axis)): "
+    "operands combined entry by entry whose merged axes run in different orders are a definite mix-up. Formula identities: aggregate == (mean_0 mu, mean_0 exp(lv) + var_0 mu); "
     "soft bounding == max - softplus(max - lv) then min + softplus(. - min); gaussian_nll and the ensemble loss; evaluate_plans == particle "
     "mean of the horizon-summed model rewards of the broadcast actions and trajectories[:, :, :-1]. Bootstraps: indices drawn with "
     "replacement as an (n_ensemble, n) matrix, per epoch a permutation along axis 1 (each index once), truncated to a multiple of "
@@ -31,11 +33,11 @@ EXPLANATION = (
 )
 TRUSTED = ["jax.vmap / nnx.vmap in_axes semantics, nnx.split / merge of the stacked ensemble state", "jax.random.permutation(axis=1) permutes every row; choice(replace=True) draws with replacement", "installed gymnasium Pendulum source is the environment's reward"]
 RULES = {
-    "R1-one-variance-per-output": "__call__ / aggregate / base_predict return mean and (log-)variance of identical shape (.., n_outputs); base_distribution builds loc and scale_diag of identical shape; call sites respect the documented rank",
+    "R1-one-variance-per-output": "__call__ / aggregate / base_predict return mean and (log-)variance of identical shape (.., n_outputs); base_distribution builds loc and scale_diag of identical shape - for batches (n_samples, n_features) and, for aggregate / base_predict / base_distribution, for a single input vector (n_features,) -> (n_outputs,); the bounds are never mapped by a wrapper; the ts_inf call site obtains such a pair and one independent draw per output dimension",
     "R2-aggregate": "aggregate == (mean(means, 0), mean(exp(log_vars), 0) + var(means, 0)) with log_vars soft-bounded",
     "R3-nll": "bounding == min + softplus(max - softplus(max - lv) - min); gaussian_nll == mean(0.5*(mu - y)^2 * exp(-lv)) + 0.5*mean(lv); ensemble loss == sum(nll) + 0.01*(sum(max_lv) - sum(min_lv))",
     "R4-bootstraps": "bootstrap == choice(key, n, (n_ensemble, int(train_size*n)), replace=True); per epoch permutation(axis=1), guarded truncation to a multiple of batch_size, reshape(n_ensemble, batch_size, -1).transpose(2,0,1); train_epoch indexes X[batch], Y[batch] per scan step",
-    "R5-plan-evaluation": "expected_returns == mean over particles of sum over the horizon of reward_model(actions broadcast over particles, trajectories[:, :, :-1])",
+    "R5-plan-evaluation": "expected_returns == mean over particles of sum over the horizon of reward_model(actions broadcast over particles, trajectories[:, :, :-1]); actions and observations handed to the reward model are paired entry by entry (merged axes keep the order they were merged in: reshape / repeat / tile), one return per plan",
     "R6-pendulum": "pendulum_reward == -(norm_angle(theta)^2 + 0.1*theta_dot^2 + 0.001*u^2) with u clipped to the environment's max torque; forms parsed from gymnasium's pendulum.py",
 }
 
@@ -259,31 +261,327 @@ def _literal_axes(repo, mi, fn, site):
                     raise AnalysisError(f"{site}: vmap axes `{short(a, 40)}` are not written as a literal (unrecognised form)")
 
 
-def _mapped_functions(repo, init):
-    """name -> (FunctionDef, module) of the functions __init__ hands to vmap by name: local functions and functions of the package."""
+def _referenced_functions(repo, init):
+    """name -> (FunctionDef, module) of the functions of the package that __init__ refers to by name (handed to vmap, stored on self, called)."""
     imi = init._module
-    locals_ = {n.name: n for n in ast.walk(init) if isinstance(n, ast.FunctionDef) and n is not init}
+    locals_ = {n.name for n in ast.walk(init) if isinstance(n, ast.FunctionDef) and n is not init}
     out = {}
-    for c in ast.walk(init):
-        if _vmap_axes(repo, imi, c) is not None and c.args and isinstance(c.args[0], ast.Name):
-            nm = c.args[0].id
-            if nm in locals_:
-                out[nm] = (locals_[nm], imi)
-            else:
-                r = repo.resolve_expr(imi, c.args[0])
-                if r and r.startswith(repo.PKG + ".") and repo.has(r):
-                    m2, node = repo.lookup(r)
-                    if isinstance(node, ast.FunctionDef):
-                        out[nm] = (node, m2)
+    for x in ast.walk(init):
+        if isinstance(x, ast.Name) and isinstance(x.ctx, ast.Load) and x.id not in locals_ and x.id not in out:
+            r = repo.resolve_expr(imi, x)
+            if r and r.startswith(repo.PKG + ".") and repo.has(r):
+                m2, node = repo.lookup(r)
+                if isinstance(node, ast.FunctionDef):
+                    out[x.id] = (node, m2)
     return out
 
 
-def _bounding_function(repo, init):
-    """The element-wise bounding function (log_var, min, max) that the wrappers map: found through the vmaps, not by its name."""
-    c = {id(f): (f, m) for f, m in _mapped_functions(repo, init).values() if len(positional_params(f)) == 3}
+def _bounding_function(repo):
+    """The element-wise bounding function (log_var, min, max): the one function of three arguments that the prediction methods apply to the soft
+    bounds (directly, through an attribute of the object, or through vmap wrappers) - found by its use, not by its name or by how it is wrapped."""
+    apps = _interpretation(repo)["applications"]
+    c = {id(a["fn"]): (a["fn"], a["mi"]) for a in apps if a["operands"][1:] == [("O",), ("O",)]}      # operands as handed to the (outermost wrapper of the) function
+    if not c:
+        # a helper introduced after the freeze is expanded at its call sites (E9): the bound then stands in place in the methods, its definition is
+        # the three-argument helper that was expanded into them
+        for caller, callee, _mode in getattr(repo, "inlined", []):
+            if caller.startswith(ENS + ".") and repo.has(callee):
+                m2, node = repo.lookup(callee)
+                if isinstance(node, ast.FunctionDef) and len(positional_params(node)) == 3 and positional_params(node)[0] not in ("self", "cls"):
+                    c[id(node)] = (node, m2)
     if len(c) != 1:
-        raise AnalysisError(f"{ENS}.__init__: {len(c)} three-argument functions are mapped by the bounding wrappers (unrecognised form)")
+        raise AnalysisError(f"{ENS}: {len(c)} three-argument functions are applied to (log-variance, min_log_var, max_log_var) by the prediction methods (unrecognised form)")
     return next(iter(c.values()))
+
+
+def _match_as_if(s: ast.Match):
+    """`match subject:` over literal patterns (`case 2:`, `case 2 | 3:`, `case _:`; no guards, no captures) as the `if subject == 2: ... elif ...: ... else:`
+    chain it abbreviates (a value pattern compares with ==; the subject is a side-effect-free read).  None for any other pattern."""
+    if not isinstance(s.subject, (ast.Name, ast.Attribute, ast.Subscript)):
+        return None
+    arms = []
+    for c in s.cases:
+        if c.guard is not None:
+            return None
+        pats = c.pattern.patterns if isinstance(c.pattern, ast.MatchOr) else [c.pattern]
+        if len(pats) == 1 and isinstance(pats[0], ast.MatchAs) and pats[0].pattern is None and pats[0].name is None:
+            arms.append((None, c.body))
+            break      # nothing after the wildcard can run
+        if not all(isinstance(p_, ast.MatchValue) and isinstance(p_.value, ast.Constant) for p_ in pats):
+            return None
+        tests = [ast.Compare(left=s.subject, ops=[ast.Eq()], comparators=[p_.value]) for p_ in pats]
+        arms.append((tests[0] if len(tests) == 1 else ast.BoolOp(op=ast.Or(), values=tests), c.body))
+    chain = []
+    for test, body in reversed(arms):
+        chain = list(body) if test is None else [ast.If(test=test, body=list(body), orelse=chain)]
+    if len(chain) != 1 or not isinstance(chain[0], ast.If):
+        return None
+    return ast.fix_missing_locations(ast.copy_location(chain[0], s))
+
+
+class _Dist(tuple):
+    """("tuple", [loc shape, scale shape]) of a diagonal Gaussian."""
+
+
+class _Drawn(tuple):
+    """Shape of a random sample."""
+
+
+class _Shapes(ShapeEngine):
+    """The shared shape engine with three more readings, all of them plain Python semantics (nothing is assumed about the analysed code):
+      * `match` over literals is the if / elif chain it abbreviates (any other `match` forgets the shapes of the names it assigns);
+      * `self.<method>(...)` of a method of the analysed class is interpreted like any other call (parameters bound by position after `self`), so a
+        prediction path split into helper methods - or one prediction method built on another - is followed;
+      * a diagonal Gaussian remembers (loc, scale); `.sample(seed=..)` of it has their common shape and stays marked as random: reduced to a single
+        number and then broadcast over an array it is one draw shared by all components (the engine's `shared-draw`);
+      * a rank-1 query of a prediction method documented for batches is not held against the call site when `accept_vector_queries` is set (the
+        caller sets it when the methods were shown to treat a single input vector as the property demands);
+      * a function defined inside a method and returned / stored (a closure that is applied later, possibly by another function) reads `self.<attr>`
+        of the object it was defined on."""
+
+    def __init__(self, *a, **k):
+        super().__init__(*a, **k)
+        self.distributions = []      # (qual, loc shape, scale shape) of every diagonal-Gaussian constructed during the interpretation
+        self.member_calls = []       # (qual of the interpreted method of the class, result)
+        self.applications = []       # every interpreted application of a three-argument function: fn, module, in_axes of the vmaps around it, operand shapes it sees
+        self._chains = []            # vmap chains being applied: (function values of the chain, innermost FunctionDef, [in_axes outermost first], operand shapes)
+
+    def stmt(self, s, env, ctx):
+        if isinstance(s, ast.Match):
+            chain = _match_as_if(s)
+            if chain is not None:
+                return super().stmt(chain, env, ctx)
+            for x in ast.walk(s):
+                if isinstance(x, ast.Name) and isinstance(x.ctx, ast.Store):
+                    env[x.id] = None
+                elif isinstance(x, (ast.MatchAs, ast.MatchStar)) and x.name:
+                    env[x.name] = None
+            return None
+        r = super().stmt(s, env, ctx)
+        if isinstance(s, ast.FunctionDef):
+            f = ctx["fnenv"].get(s.name)
+            while isinstance(f, Fn) and f.kind in ("vmap", "scan"):
+                f = f.args[0]
+            if isinstance(f, Fn) and f.kind == "def":
+                f.self_attrs = ctx["self"]
+        return r
+
+    accept_vector_queries = False
+
+    def alarm(self, mi, node, kind, text, qual):
+        if kind == "rank-mismatch-call" and getattr(self, "_vector_query", 0):
+            return None
+        return super().alarm(mi, node, kind, text, qual)
+
+    def call(self, e, env, ctx):
+        f = e.func
+        if isinstance(f, ast.Attribute) and f.attr == "sample" and not e.args and all(k.arg in ("seed", "key") for k in e.keywords):
+            recv = self.ev(f.value, env, ctx)
+            if isinstance(recv, _Dist):
+                shp = self.broadcast(list(recv[1]), ctx["mi"], e, ctx["qual"])
+                return _Drawn(shp) if shp is not None else None
+        vector_query = False
+        if self.accept_vector_queries and isinstance(f, ast.Attribute) and isinstance(f.value, ast.Name) and ctx.get("ptypes", {}).get(f.value.id) == ENS and e.args and not isinstance(e.args[0], ast.Starred):
+            a0 = self.ev(e.args[0], env, ctx)
+            vector_query = self.is_shape(a0) and a0 is not None and len(a0) == 1
+        self._vector_query = getattr(self, "_vector_query", 0) + int(vector_query)
+        try:
+            r = super().call(e, env, ctx)
+        finally:
+            self._vector_query -= int(vector_query)
+        if isinstance(f, ast.Attribute) and f.attr in ("MultivariateNormalDiag", "Normal") and _pair(r) is not None:
+            self.distributions.append((ctx["qual"], r[1][0], r[1][1]))
+            r = _Dist(r)
+        return r
+
+    def subscript(self, e, env, ctx):
+        r = super().subscript(e, env, ctx)
+        v = e.value
+        if self.is_shape(r) and r is not None and (isinstance(v, ast.Name) or (isinstance(v, ast.Call) and isinstance(v.func, ast.Attribute) and v.func.attr == "sample")):
+            base = env.get(v.id) if isinstance(v, ast.Name) else self.call(v, env, ctx)
+            if isinstance(base, _Drawn):
+                return DrawShape() if r == () else _Drawn(r)
+        return r
+
+    def analyse(self, fn, mi, qual, arg_shapes, fnenv=None, depth=0, self_attrs=None):
+        ps = positional_params(fn)
+        if depth > 0 and len(ps) == 3 and ps[0] not in ("self", "cls"):
+            top = self._chains[-1] if self._chains else None
+            seen = [arg_shapes.get(p_) for p_ in ps]
+            mine = bool(top and top[1] is fn)
+            self.applications.append({"fn": fn, "mi": mi, "site": qual, "chain": list(top[2]) if mine else [], "shapes": seen, "operands": list(top[3]) if mine and len(top[3]) == 3 else seen})
+        r = super().analyse(fn, mi, qual, arg_shapes, fnenv, depth, self_attrs)
+        if depth > 0 and qual.startswith(ENS + ".") and "<" not in qual:
+            self.member_calls.append((qual, r))
+        return r
+
+    def apply(self, fv, args, kws, node, ctx):
+        if fv.kind == "method":
+            fn, mi, cq = fv.args
+            if ctx["depth"] >= self.max_depth:
+                return None
+            env = dict(zip(positional_params(fn)[1:], args))
+            env.update(kws)
+            return self.analyse(fn, mi, f"{cq}.{fn.name}", env, {}, ctx["depth"] + 1, ctx["self"])
+        own = getattr(fv, "self_attrs", None)
+        if fv.kind == "def" and own is not None and own is not ctx["self"]:
+            ctx = {**ctx, "self": own}
+        if fv.kind == "vmap" and not (self._chains and any(fv is m_ for m_ in self._chains[-1][0])):
+            members, axes, f = [], [], fv
+            while f.kind == "vmap":
+                members.append(f)
+                axes.append(f.args[1])
+                f = f.args[0]
+            self._chains.append((members, f.args[0] if f.kind == "def" else None, axes, list(args)))
+            try:
+                return super().apply(fv, args, kws, node, ctx)
+            finally:
+                self._chains.pop()
+        return super().apply(fv, args, kws, node, ctx)
+
+
+def _factors(d):
+    return list(d[1:]) if isinstance(d, tuple) and d and d[0] == "x" else [d]
+
+
+def _product(fs):
+    fs = [f for f in fs if f != 1]
+    return 1 if not fs else fs[0] if len(fs) == 1 else ("x",) + tuple(fs)
+
+
+class _Axes(_Shapes):
+    """Shapes whose merged axes remember HOW they were merged.  An axis that combines several axes is the ordered product ("x", major, .., minor) of
+    the axes it was made from, in memory order: `reshape` merges adjacent source axes in source order (whatever order the target *size* is written
+    in - `a * b` and `b * a` are the same number) and splits a product only in that order; `repeat(x, n, axis)` makes (axis, n); `tile(x, reps)`
+    makes (rep, axis).  Two operands that are combined element by element and carry the same factors in a different order pair entry (s, p) of
+    one with entry (s', p') of the other: a definite mix-up (alarm `merged-axes-misaligned`).  Anything not read stays unknown and never alarms."""
+
+    def _ev(self, e, env, ctx):
+        if isinstance(e, (ast.Tuple, ast.List)) and any(isinstance(x, ast.Starred) for x in e.elts):
+            out = []      # (a, b, *rest) is (a, b) + rest
+            for x in e.elts:
+                if isinstance(x, ast.Starred):
+                    d = self.dims_of_value(self.ev(x.value, env, ctx))
+                    if d is None:
+                        return None
+                    out += [("dim", y) for y in d]
+                else:
+                    out.append(self.ev(x, env, ctx))
+            return ("tuple", out)
+        if isinstance(e, ast.BinOp) and isinstance(e.op, ast.Mult):
+            a, b = self.ev(e.left, env, ctx), self.ev(e.right, env, ctx)
+            isdim = lambda v: isinstance(v, tuple) and len(v) == 2 and v[0] == "dim" and v[1] is not None
+            if isdim(a) and isdim(b):
+                return ("dim", _product(_factors(a[1]) + _factors(b[1])))
+        return super()._ev(e, env, ctx)
+
+    def _int(self, e, env, ctx):
+        """A Python int the expression certainly denotes (literal, `x.ndim`, sums / differences of these) or None."""
+        if isinstance(e, ast.Constant) and isinstance(e.value, int) and not isinstance(e.value, bool):
+            return e.value
+        if isinstance(e, ast.Attribute) and e.attr == "ndim":
+            v = self.ev(e.value, env, ctx)
+            return len(v) if self.is_shape(v) and v is not None else None
+        if isinstance(e, ast.BinOp) and isinstance(e.op, (ast.Add, ast.Sub)):
+            a, b = self._int(e.left, env, ctx), self._int(e.right, env, ctx)
+            return None if a is None or b is None else (a + b if isinstance(e.op, ast.Add) else a - b)
+        return None
+
+    def _reps(self, e, env, ctx):
+        """Entries of a repetition tuple: ints / dimension symbols, None when not read."""
+        if isinstance(e, (ast.Tuple, ast.List)):
+            out = []
+            for x in e.elts:
+                k = self._int(x, env, ctx)
+                if k is None:
+                    v = self.ev(x, env, ctx)
+                    k = v[1] if isinstance(v, tuple) and len(v) == 2 and v[0] == "dim" else None
+                if k is None:
+                    return None
+                out.append(k)
+            return out
+        if isinstance(e, ast.BinOp) and isinstance(e.op, ast.Add):
+            a, b = self._reps(e.left, env, ctx), self._reps(e.right, env, ctx)
+            return None if a is None or b is None else a + b
+        if isinstance(e, ast.BinOp) and isinstance(e.op, ast.Mult):
+            for seq, n in ((e.left, e.right), (e.right, e.left)):
+                a, k = self._reps(seq, env, ctx) if isinstance(seq, (ast.Tuple, ast.List)) else None, self._int(n, env, ctx)
+                if a is not None and k is not None and k >= 0:
+                    return a * k
+        return None
+
+    def libcall(self, short, name, e, args, kw, env, ctx, method=False):
+        a0 = args[0] if args else None
+        if short == "tile" and not method:
+            r_e = kw.get("reps", e.args[1] if len(e.args) > 1 else None)
+            reps = self._reps(r_e, env, ctx) if r_e is not None else None
+            if reps is None or not self.is_shape(a0) or a0 is None or len(reps) > len(a0):
+                return None
+            reps = [1] * (len(a0) - len(reps)) + reps
+            return tuple(d if r == 1 else (None if d is None else _product([r] + _factors(d))) for d, r in zip(a0, reps))
+        if short == "repeat" and not method:
+            n_e, ax_e = kw.get("repeats", e.args[1] if len(e.args) > 1 else None), kw.get("axis", e.args[2] if len(e.args) > 2 else None)
+            ax = self.lit(ax_e, None) if ax_e is not None else None
+            n = self.dim_of(n_e, env, ctx) if n_e is not None else None
+            if not self.is_shape(a0) or a0 is None or not isinstance(ax, int) or isinstance(ax, bool) or n is None or not -len(a0) <= ax < len(a0):
+                return None
+            ax %= len(a0)
+            return tuple((None if d is None else _product(_factors(d) + _factors(n))) if i == ax else d for i, d in enumerate(a0))
+        return super().libcall(short, name, e, args, kw, env, ctx, method)
+
+    def reshape(self, src, tgt, mi, node, qual):
+        isprod = lambda d: isinstance(d, tuple) and bool(d) and d[0] == "x"
+        if src is None or not any(isprod(d) for d in list(src) + list(tgt)):
+            return super().reshape(src, tgt, mi, node, qual)
+        F = [f for d in src for f in _factors(d) if f != 1]      # the source axes, major to minor
+        want = [[f for f in _factors(t) if f != 1] if t != -1 else None for t in tgt]
+        if sum(1 for w in want if w is None) > 1 or any(f is None for w in want if w is not None for f in w):
+            return tuple(None for _ in tgt)
+        free = len(F) - sum(len(w) for w in want if w is not None)
+        if free < 0:
+            return tuple(None for _ in tgt)
+        out, j, broken = [], 0, False
+        for w in want:
+            k = free if w is None else len(w)
+            got = F[j:j + k]
+            j += k
+            if broken or len(got) != k or (k > 1 and any(f is None for f in got)):
+                out.append(None)
+            elif w is None or sorted(map(str, got)) == sorted(map(str, w)):
+                out.append(_product(got))      # merged / split in source order
+            elif k == 1 and (got[0] is None or (str(got[0]) not in {str(f) for w2 in want if w2 for f in w2} and str(w[0]) not in set(map(str, F)))):
+                out.append(w[0])      # a size written in another way (e.g. H+1-1 for H): the same axis
+            else:
+                # the factors are there, but not in this order: a reshape cannot reorder axes
+                if sorted(map(str, F)) == sorted(str(f) for w2 in want if w2 for f in w2) and len(set(map(str, F))) == len(F) and all(isinstance(f, str) for f in F):
+                    self.alarm(mi, node, "reshape-permutes", f"reshape of {src} to {tuple(tgt)} takes the merged axes apart in another order than they were merged ({F}): entries of different samples / particles are mixed", qual)
+                broken = True
+                out.append(None)
+        return tuple(out)
+
+    def broadcast(self, shapes, mi, node, qual):
+        known = [s_ for s_ in shapes if s_ is not None and self.is_shape(s_)]
+        if len(known) >= 2:
+            rank = max(len(s_) for s_ in known)
+            for i in range(1, rank + 1):
+                col = [s_[-i] for s_ in known if len(s_) >= i]
+                prods = [d for d in col if isinstance(d, tuple) and d and d[0] == "x"]
+                for a in prods:
+                    for b in prods:
+                        if a < b and a != b and sorted(map(str, a[1:])) == sorted(map(str, b[1:])) and len(set(map(str, a[1:]))) == len(a) - 1:
+                            self.alarm(mi, node, "merged-axes-misaligned", f"operands of shapes {' , '.join(str(s_) for s_ in known)} are combined element by element, but one merged axis runs over {list(a[1:])} (major to minor) and the other over {list(b[1:])}: "
+                                       f"entry k of one belongs to another ({', '.join(map(str, a[1:]))}) combination than entry k of the other", qual)
+        return super().broadcast(shapes, mi, node, qual)
+
+
+def _methods_as_functions(repo, attrs):
+    """Plain methods of the class (through the repository-internal MRO) as function values of `self`, unless __init__ stored something under the name."""
+    for cq in repo.mro(ENS):
+        c = repo.cls(cq)
+        for m in c.body:
+            if isinstance(m, ast.FunctionDef) and not m.decorator_list and m.name not in attrs and not (m.name.startswith("__") and m.name != "__call__") and positional_params(m)[:1] == ["self"] \
+                    and m.args.vararg is None and m.args.kwarg is None:
+                attrs[m.name] = ("fn", Fn("method", m, c._module, ENS))
 
 
 def _class_self(repo, se):
@@ -292,7 +590,7 @@ def _class_self(repo, se):
     _literal_axes(repo, init._module, init, ENS + ".__init__")
     attrs = {}
     locals_ = {n.name for n in ast.walk(init) if isinstance(n, ast.FunctionDef) and n is not init}
-    fnenv = {nm: Fn("def", f, m, {}) for nm, (f, m) in _mapped_functions(repo, init).items() if nm not in locals_}
+    fnenv = {nm: Fn("def", f, m, {}) for nm, (f, m) in _referenced_functions(repo, init).items() if nm not in locals_}
     p_e, _sh, p_f, p_o = _roles(init, 4, ENS + ".__init__", skip_self=True)     # recorded: n_ensemble, shared_head, n_features, n_outputs
     env = {p_e: ("dim", "E"), p_o: ("dim", "O"), p_f: ("dim", "F")}
     # the member network (first parameter of the local forward functions / lambdas) returns (mean, log-variance), one entry per output
@@ -302,6 +600,7 @@ def _class_self(repo, se):
     se.analyse(init, init._module, ENS + ".__init__", env, fnenv, 0, attrs)
     # seeds for properties / parameters (documented: one bound per output)
     attrs.update({"min_log_var": ("O",), "max_log_var": ("O",), "ensemble": ("E",), "n_outputs": ("dim", "O"), "n_ensemble": ("dim", "E")})
+    _methods_as_functions(repo, attrs)
     return attrs
 
 
@@ -367,48 +666,100 @@ def _pair(r):
     return r[1] if isinstance(r, tuple) and len(r) == 2 and r[0] == "tuple" and isinstance(r[1], list) and len(r[1]) == 2 else None
 
 
+# (method, shapes of (x[, i]), tag, leading axes of the documented result).  The property quantifies over batches AND single input vectors: the
+# member / aggregate predictions are interpreted for both ranks (the joint forward pass documents ranks 2 and 3 only and rejects anything else).
+_CASES = [("__call__", [("N", "F")], "ensemble", ("E", "N")), ("__call__", [("E", "N", "F")], "per-member", ("E", "N")), ("aggregate", [("N", "F")], "agg", ("N",)), ("base_predict", [("N", "F"), ()], "member", ("N",)),
+          ("base_distribution", [("N", "F"), ()], "dist", ("N",)),
+          ("aggregate", [("F",)], "agg-vector", ()), ("base_predict", [("F",), ()], "member-vector", ()), ("base_distribution", [("F",), ()], "dist-vector", ())]
+
+
+def _rejects_some_inputs(repo, fn):
+    """The method validates its input (raise / assert / chex assertion): the shapes derived for a rank it may reject are no evidence."""
+    for x in ast.walk(fn):
+        if isinstance(x, (ast.Raise, ast.Assert)):
+            return True
+        if isinstance(x, ast.Call) and isinstance(x.func, (ast.Name, ast.Attribute)) and (repo.resolve_expr(fn._module, x.func) or "").startswith("chex.assert"):
+            return True
+    return False
+
+
+def _interpretation(repo):
+    """One symbolic interpretation of the prediction methods (all cases), shared by the rules: result shapes, alarms, and every application of a
+    three-argument function that was met on the way (this is how the bounding function and its wrappers are found)."""
+    c = getattr(repo, "_c17_interpretation", None)
+    if c is None:
+        se = _Shapes(repo, max_depth=5)
+        se.merge_out = ["O", "O"]
+        attrs = _class_self(repo, se)
+        se.class_self[ENS] = attrs
+        results = []
+        for meth, shapes, tag, want_lead in _CASES:
+            fn = _m(repo, ENS, meth)
+            site = f"{ENS}.{meth}"
+            _literal_axes(repo, fn._module, fn, site)
+            argsh = dict(zip(_roles(fn, len(shapes), site, skip_self=True), shapes))      # recorded: (x) / (x, i)
+            se.alarms = []
+            r = se.analyse(fn, fn._module, site, dict(argsh), {}, 0, dict(attrs))
+            results.append({"meth": meth, "shapes": shapes, "tag": tag, "want_lead": want_lead, "fn": fn, "site": site, "r": r, "alarms": list(se.alarms)})
+        c = {"attrs": attrs, "results": results, "applications": list(se.applications)}
+        try:
+            repo._c17_interpretation = c
+        except Exception:
+            pass
+    return c
+
+
 def r1_shapes(ck, repo):
-    se = ShapeEngine(repo, max_depth=5)
-    se.merge_out = ["O", "O"]
-    attrs = _class_self(repo, se)
-    se.class_self[ENS] = attrs
-    cases = [("__call__", [("N", "F")], "ensemble", ("E", "N")), ("__call__", [("E", "N", "F")], "per-member", ("E", "N")), ("aggregate", [("N", "F")], "agg", ("N",)), ("base_predict", [("N", "F"), ()], "member", ("N",)),
-             ("base_distribution", [("N", "F"), ()], "dist", ("N",))]
-    for meth, shapes, tag, want_lead in cases:
-        fn = _m(repo, ENS, meth)
-        site = f"{ENS}.{meth}"
-        _literal_axes(repo, fn._module, fn, site)
-        argsh = dict(zip(_roles(fn, len(shapes), site, skip_self=True), shapes))      # recorded: (x) / (x, i)
-        se.alarms = []
-        r = se.analyse(fn, fn._module, site, dict(argsh), {}, 0, dict(attrs))
+    interp = _interpretation(repo)
+    attrs = interp["attrs"]
+    vectors_ok = True
+    for res in interp["results"]:
+        meth, shapes, tag, want_lead, fn, site, r, alarms = (res[k] for k in ("meth", "shapes", "tag", "want_lead", "fn", "site", "r", "alarms"))
+        vector = tag.endswith("-vector")
+        dist = tag.startswith("dist")
         pr = _pair(r)
         want = want_lead + ("O",)
-        what = "(loc, scale)" if tag == "dist" else "(mean, variance)"
-        ok = pr is not None and pr[0] == want and pr[1] == want
+        what = "(loc, scale)" if dist else "(mean, variance)"
+        # a single vector yields one mean and one variance per output: (O,) - or (1, O) when the method lifts the vector to a batch of one
+        ok = pr is not None and pr[0] == pr[1] and (pr[1] == want or (vector and pr[1] == (1, "O")))
         # evidence = both shapes were derived completely and differ from the documented one; a shape the engine lost on the way is no evidence
         decided = pr is not None and _known_shape(pr[0]) and _known_shape(pr[1])
-        if not ok and not decided and not se.alarms:
+        if vector and not ok and _rejects_some_inputs(repo, fn):
+            raise AnalysisError(f"{site}: validates its input; what it yields for a single input vector {shapes[0]} was not determined (unrecognised form)")
+        if not ok and not decided and not alarms:
             raise AnalysisError(f"{site}: symbolic shapes of {what} could not be determined for x {shapes[0]} (got {pr if pr is not None else r}): restructured beyond what the shape engine follows")
+        vectors_ok = vectors_ok and (ok or not vector)
         if ok or decided:
-            key = "loc-scale-shapes" if tag == "dist" else f"mean-var-shapes:{tag}"
-            ck.ob("R1-one-variance-per-output", site, key, bool(ok), f"x {shapes[0]} -> {what} = ({pr[0]}, {pr[1]})",
-                  "" if ok else (f"loc and scale_diag must both be {want}" if tag == "dist" else f"mean and variance must both have shape {want}: one variance per output dimension (a second output axis means every scalar was broadcast against the per-output bounds)"), loc(fn._module, fn))
-        for rel, line, kind, text, qual in se.alarms:
-            ck.ob("R1-one-variance-per-output", site, f"shape:{kind}", False, kind, text, f"{rel}:{line}")
+            key = (f"vector-input:{tag[:-7]}" if vector else "loc-scale-shapes" if dist else f"mean-var-shapes:{tag}")
+            why = "" if ok else (f"loc and scale_diag must both be {want}" if dist else f"mean and variance must both have shape {want}: one variance per output dimension (a second output axis means every scalar was broadcast against the per-output bounds)")
+            if vector and not ok:
+                why = f"for a single input vector the {'scale' if dist else 'variance'} has shape {pr[1]} (mean {pr[0]}), not {want}: the wrapper around the bounding function strips the output axis of the (n_outputs,) log-variance, so every scalar is broadcast against all n_outputs bounds (row j holds output j's raw log-variance bounded by every output's bounds)"
+            ck.ob("R1-one-variance-per-output", site, key, bool(ok), f"x {shapes[0]} -> {what} = ({pr[0]}, {pr[1]})", why, loc(fn._module, fn))
+        for rel, line, kind, text, qual in alarms:
+            ck.ob("R1-one-variance-per-output", site, f"shape:{kind}" + (":vector" if vector else ""), False, kind, text, f"{rel}:{line}")
     # ts_inf call site
     q = "rl_blox.algorithm.pets.ts_inf"
     fn = repo.func(q)
     _literal_axes(repo, fn._module, fn, q)
     p_key, p_idx, p_acts, p_obs = _roles(fn, 4, q)      # recorded: key, model_idx, acts, obs, dynamics_model
-    se2 = ShapeEngine(repo, max_depth=5)
+    se2 = _Shapes(repo, max_depth=5)
     se2.merge_out = ["O", "O"]
     se2.class_self[ENS] = attrs
+    se2.accept_vector_queries = vectors_ok      # the member methods treat a single input vector like a batch of one: a rank-1 query is as good as a (1, F) one
     se2.analyse(fn, fn._module, q, {p_key: (), p_idx: (), p_acts: ("H", "A"), p_obs: ("O",)}, {}, 0, {})
     shared = [a for a in se2.alarms if a[2] == "shared-draw"]
     ck.ob("R1-one-variance-per-output", q, "independent-noise-per-dimension", not shared, "random draws in the particle propagation", "" if not shared else "; ".join(a[3] for a in shared)[:300] + " (the member distribution is a diagonal Gaussian with independent dimensions)", loc(fn._module, fn))
     bad = [a for a in se2.alarms if a[2] != "shared-draw"]
-    ck.ob("R1-one-variance-per-output", q, "member-query-rank", not bad, f"base_distribution(hstack((obs (O,), act (A,)))...) ; alarms {[a[2] for a in bad]}",
-          "" if not bad else "; ".join(a[3] for a in bad)[:300], loc(fn._module, fn))
+    # what the member query yields at this call site: the diagonal Gaussians that were constructed while the particle propagation was interpreted (in
+    # the method, a helper method or a closure it returned) and the (mean, variance) pairs of the documented prediction methods
+    seen = [(q_, a_, b_) for q_, a_, b_ in se2.distributions] + [(q_, _pair(r_)[0], _pair(r_)[1]) for q_, r_ in se2.member_calls if _pair(r_) is not None and q_.rsplit(".", 1)[1] in ("__call__", "aggregate", "base_predict")]
+    seen = [(q_, a_, b_) for q_, a_, b_ in seen if _known_shape(a_) and _known_shape(b_)]
+    if not bad and not seen:
+        raise AnalysisError(f"{q}: the query of the member model was not followed to a (mean, variance) / (loc, scale) of known shape (unrecognised form)")
+    mism = [(q_, a_, b_) for q_, a_, b_ in seen if a_ != b_ and max(a_.count("O"), b_.count("O")) >= 2]      # e.g. loc (O,) with scale (1, O) is the same distribution
+    why_q = "; ".join(a[3] for a in bad)[:300] or "; ".join(f"{q_.rsplit('.', 1)[1]} yields shapes {a_} and {b_} for this query: not one variance per output dimension" for q_, a_, b_ in mism)[:300]
+    ck.ob("R1-one-variance-per-output", q, "member-query-rank", not bad and not mism, f"base_distribution(hstack((obs (O,), act (A,)))...) -> {[(a_, b_) for _q, a_, b_ in seen][:2]}; alarms {[a[2] for a in bad]}",
+          why_q, loc(fn._module, fn))
     # the two vmaps of ts_inf: read from the decorators (literal axes, see _literal_axes), outer = samples, inner = particles
     axes = []
     for d in fn.decorator_list:
@@ -423,18 +774,15 @@ def r1_shapes(ck, repo):
     ok = sorted(axes, key=repr) == sorted([(0, None, 0, None, None), (0, 0, None, None, None)], key=repr)
     ck.ob("R1-one-variance-per-output", q, "vmap-axes", ok, f"in_axes {axes}", "" if ok else "outer vmap over samples (keys, actions), inner over particles (keys, model indices)", loc(fn._module, fn))
     # the wrappers map the data only: a mapped bound pairs bound j with sample j.  (How many axes a wrapper strips is decided by the shapes above:
-    # the bounding function is element-wise, so a wrapper of another depth that yields the documented shapes yields the documented values.)
+    # the bounding function is element-wise, so it may be applied directly - the (n_outputs,) bounds broadcast over the trailing axis at any rank - or
+    # under vmaps; a wrapper of any depth that yields the documented shapes yields the documented values.)
     init = _m(repo, ENS, "__init__")
-    bf, _bmi = _bounding_function(repo, init)
-    depth = lambda f: 0 if f.kind != "vmap" else 1 + depth(f.args[0])
-    chain = lambda f: [] if f.kind != "vmap" else [f.args[1]] + chain(f.args[0])
-    inner = lambda f: f if f.kind != "vmap" else inner(f.args[0])
-    wrappers = {k: v[1] for k, v in attrs.items() if isinstance(v, tuple) and len(v) == 2 and v[0] == "fn" and isinstance(v[1], Fn) and v[1].kind == "vmap" and inner(v[1]).kind == "def" and inner(v[1]).args[0] is bf}
-    if not wrappers:
-        raise AnalysisError(f"{ENS}.__init__: no attribute holds a vmap of the bounding function `{bf.name}` (unrecognised form)")
+    bf, _bmi = _bounding_function(repo)
+    apps = [a for a in interp["applications"] if a["fn"] is bf]
     maps_bound = lambda ax: (isinstance(ax, int) and not isinstance(ax, bool)) or (isinstance(ax, (tuple, list)) and any(a is not None for a in list(ax)[1:3]))
-    ok = not any(maps_bound(ax) for w in wrappers.values() for ax in chain(w))
-    ck.ob("R1-one-variance-per-output", ENS + ".__init__", "wrapper-depths", ok, "; ".join(f"{k}: vmap depth {depth(w)}, in_axes {chain(w)}" for k, w in sorted(wrappers.items())),
+    ok = not any(maps_bound(ax) for a in apps for ax in a["chain"])
+    forms = sorted({f"vmap depth {len(a['chain'])}, in_axes {a['chain']}" if a["chain"] else "applied directly (bounds broadcast over the trailing axis)" for a in apps}) or ["expanded in place (bounds broadcast over the trailing axis)"]
+    ck.ob("R1-one-variance-per-output", ENS + ".__init__", "wrapper-depths", ok, f"`{bf.name}` is " + "; ".join(forms),
           "" if ok else "the wrappers map the leading axes of the log-variance; the bounds (one per output) are never mapped", loc(init._module, init))
 
 
@@ -494,7 +842,7 @@ def r2_r3_formulas(ck, repo, nf):
     ok = ok0 and ok1
     ck.ob("R2-aggregate", site, "law-of-total-variance", ok, f"({got.canon()[:170]}", "" if ok else f"must return (mean_0(mu), mean_0(exp(lv)) + var_0(mu)) over the member axis 0{': ' + why1 if why1 else ''}", loc(mi, fn))
     # soft bounding: the function that the wrappers map (found through the vmaps, not by its name)
-    sl, imi = _bounding_function(repo, init)
+    sl, imi = _bounding_function(repo)
     ssite = ENS + ".__init__.<locals>.safe_log_var"
     sl = _spelled(ck, repo, sl, imi)
     e2 = _env(sl)
@@ -702,13 +1050,18 @@ def r4_bootstraps(ck, repo, nf):
     # reshape / transpose layout
     okm, whym = None, ""
     if rs is not None:
-        dexp = _display(rs[2], rs[3], "shape", "newshape")
+        dexp, d_at = _display(rs[2], rs[3], "shape", "newshape"), rs_at
+        if dexp is not None and len(dexp) == 1 and isinstance(dexp[0], ast.Name):
+            # the target shape held in a local name: read the display where it was built (its entries are evaluated there)
+            dv, dn = _deref(cfg, dexp[0], rs_at)
+            if isinstance(dv, (ast.Tuple, ast.List)) and not any(isinstance(x, (ast.Starred, ast.Tuple, ast.List)) for x in dv.elts):
+                dexp, d_at = list(dv.elts), dn
         msc = Scope(cfg, mi, env, q)
         msc.opaque_names = set(matrices)
         member_forms = {nf.poly(parse_expr(f"{MODEL}.n_ensemble"), Scope(None, mi, env, q), None).canon()} | {t.format(m) for m in matrices for t in ("{}.shape[0]", "len({})")}
 
         def kind(e):
-            c = nf.poly(e, msc, rs_at).canon()
+            c = nf.poly(e, msc, d_at).canon()
             return "member" if c in member_forms else "batch" if c == BSc else "rest" if c == "-1" else ("?", c)
         dims = [kind(e) for e in dexp] if dexp is not None else None
         if tr is not None:
@@ -888,13 +1241,26 @@ def r5_plans(ck, repo, nf):
     why = why or ("" if ok_act else "the actions are not broadcast over the particle axis") or ("" if ok_obs else f"the observations are `{got_obs.canon()[:60]}`, not the states the actions are taken in (trajectories[:, :, :-1])")
     ok = ok_red and ok_act and ok_obs
     ck.ob("R5-plan-evaluation", q, "sum-horizon-mean-particles", ok, shown, "" if ok else f"must be mean_particles(sum_horizon(reward_model(broadcast actions, trajectories[:, :, :-1]))): {why}", loc(mi, f))
-    se = ShapeEngine(repo)
+
+
+def r5_axes(ck, repo):
+    """Which plan / particle each entry belongs to, followed through broadcast / reshape / tile / repeat (ordered merged axes): the actions and
+    the observations handed to the reward model must be paired entry by entry, and the result has one expected return per plan."""
+    q = "rl_blox.algorithm.pets.evaluate_plans"
+    f0 = repo.func(q)
+    PA, PT, PR = _roles(f0, 3, q)      # recorded: actions, trajectories, reward_model
+    se = _Axes(repo)
     se.module_out = {}
-    r = se.analyse(f0, f0._module, q, {PA: ("S", "H", "A"), PT: ("S", "P", "H1", "O")}, {PR: Fn("lambda", ast.parse("lambda a, o: a[..., 0]", mode="eval").body, f0._module, {})}, 0, {})
+    # the reward model is any function that combines its two arguments entry by entry over the leading axes
+    r = se.analyse(f0, f0._module, q, {PA: ("S", "H", "A"), PT: ("S", "P", "H1", "O")}, {PR: Fn("lambda", ast.parse("lambda a, o: a[..., 0] + o[..., 0]", mode="eval").body, f0._module, {})}, 0, {})
+    mixed = [a for a in se.alarms if a[2] in ("merged-axes-misaligned", "reshape-permutes")]
+    for rel, line, kind, text, _qual in mixed:
+        ck.ob("R5-plan-evaluation", q, f"axes:{kind}", False, kind, text + " (every particle of plan s must be rewarded for plan s's actions)", loc(f0._module, f0) if _qual.endswith("<lambda>") else f"{rel}:{line}")
     ok = r == ("S",)
-    if r is None or not isinstance(r, tuple) or (r and r[0] in ("tuple", "dim", "dims", "fn")) or any(d is None for d in r):
+    if not mixed and (r is None or not isinstance(r, tuple) or (r and r[0] in ("tuple", "dim", "dims", "fn")) or any(d is None or isinstance(d, tuple) for d in r)):
         raise AnalysisError(f"{q}: result shape {r} not inferred (unrecognised form)")
-    ck.ob("R5-plan-evaluation", q, "one-return-per-plan", ok, f"actions (S,H,A), trajectories (S,P,H+1,O) -> {r}", "" if ok else "the result must have one expected return per candidate plan (S,)", loc(mi, f))
+    if not mixed:
+        ck.ob("R5-plan-evaluation", q, "one-return-per-plan", ok, f"actions (S,H,A), trajectories (S,P,H+1,O) -> {r}", "" if ok else "the result must have one expected return per candidate plan (S,)", loc(f0._module, f0))
 
 
 def r6_pendulum(ck, repo, nf):
@@ -967,17 +1333,38 @@ def run(ck, repo: Repo, tier: str):
     ck.guard(r2_r3_formulas, ck, repo, nf)
     ck.guard(r4_bootstraps, ck, repo, nf)
     ck.guard(r5_plans, ck, repo, nf)
+    ck.guard(r5_axes, ck, repo)
     ck.guard(r6_pendulum, ck, repo, nf)
 
 
 _E, _P, _R = "rl_blox/blox/probabilistic_ensemble.py", "rl_blox/algorithm/pets.py", "rl_blox/algorithm/pets_reward_models.py"
+# The element-wise bounding function is bound to two attributes (member / whole ensemble); wrappers are re-introduced by the variants below.
+_DOUBLE_WRAPPER = "        self._safe_log_var = nnx.vmap(\n            nnx.vmap(safe_log_var, in_axes=(0, None, None)),\n            in_axes=(0, None, None),\n        )\n"
+_ALIAS_I, _ALIAS_E = "        self._safe_log_var_i = safe_log_var\n", "        self._safe_log_var = safe_log_var\n"
+_LOCAL_BOUND = "        def safe_log_var(log_var, min_log_var, max_log_var):\n            log_var = max_log_var - nnx.softplus(max_log_var - log_var)\n            log_var = min_log_var + nnx.softplus(log_var - min_log_var)\n            return log_var\n"
+_BOUND_CALL_E = "self._safe_log_var(\n            log_vars, self.min_log_var, self.max_log_var\n        )"
+_BOUND_CALL_I = "self._safe_log_var_i(\n            log_var_i, self.min_log_var, self.max_log_var\n        )"
+_CALL_DISPATCH = "        if x.ndim == 2:\n            means, log_vars = self._forward_ensemble(self.ensemble, x)\n        elif x.ndim == 3:\n            means, log_vars = self._forward_individual(self.ensemble, x)\n        else:\n            raise ValueError(f\"{x.shape=}\")\n"
+_PLANS_BODY = "    n_samples, plan_horizon = actions.shape[:2]\n    action_shape = actions.shape[2:]\n    n_particles = trajectories.shape[1]\n\n    broadcasted_actions = jnp.broadcast_to(\n        actions[:, jnp.newaxis],\n        (n_samples, n_particles, plan_horizon) + action_shape,\n    )  # broadcast actions along particle axis\n    # TODO the reward model could be extended to include next observations\n    rewards = reward_model(broadcasted_actions, trajectories[:, :, :-1])\n    # sum along plan_horizon axis\n    returns = rewards.sum(axis=-1)\n"
 MUTANTS = [
-    {"id": "c17-bounds-frozen", "file": _E, "rule": "R3", "find": "        self._safe_log_var_i = nnx.vmap(safe_log_var, in_axes=(0, None, None))", "replace": "        self._upper_bound = self.max_log_var\n        self._safe_log_var_i = nnx.vmap(safe_log_var, in_axes=(0, None, None))"},
+    # plan evaluation over one flat batch of rollouts: which (plan, particle) an entry belongs to is decided by how the axes were merged
+    {"id": "c17-plans-flat-tiled-actions", "file": _P, "rule": "R5", "find": _PLANS_BODY, "replace": "    n_plans, horizon = actions.shape[:2]\n    n_part = trajectories.shape[1]\n    states = trajectories[:, :, :-1].reshape((n_plans * n_part, horizon) + trajectories.shape[3:])\n    controls = jnp.tile(actions, (n_part, 1, 1))\n    rewards = reward_model(controls, states)\n    returns = rewards.sum(axis=-1).reshape(n_plans, n_part)\n"},
+    {"id": "c17-plans-flat-split-in-wrong-order", "file": _P, "rule": "R5", "find": _PLANS_BODY, "replace": "    n_plans, horizon = actions.shape[:2]\n    n_part = trajectories.shape[1]\n    states = trajectories[:, :, :-1].reshape((n_plans * n_part, horizon) + trajectories.shape[3:])\n    controls = jnp.repeat(actions, n_part, axis=0)\n    rewards = reward_model(controls, states)\n    returns = rewards.sum(axis=-1).reshape(n_part, n_plans).T\n"},
+    # forms read since: `match` on the rank, prediction paths through helper methods / closures, a reshape target held in a local name
+    {"id": "c17-call-match-swapped", "file": _E, "rule": "R1", "find": _CALL_DISPATCH, "replace": "        match x.ndim:\n            case 3:\n                means, log_vars = self._forward_ensemble(self.ensemble, x)\n            case 2:\n                means, log_vars = self._forward_individual(self.ensemble, x)\n            case _:\n                raise ValueError(f\"{x.shape=}\")\n"},
+    {"id": "c17-closure-member-bound-vmapped", "file": _E, "rule": "R1-one-variance-per-output", "edits": [("        mean_i, log_var_i = base_model(x)\n        log_var_i = " + _BOUND_CALL_I + "\n        std_i = jnp.exp(0.5 * log_var_i)\n        return dist.MultivariateNormalDiag(loc=mean_i, scale_diag=std_i)",
+                                                                                                           "        lo, hi = self.min_log_var, self.max_log_var\n\n        def member_distribution(inputs):\n            mu, raw = base_model(inputs)\n            bounded = jax.vmap(self._safe_log_var_i, in_axes=(0, None, None))(raw, lo, hi)\n            return dist.MultivariateNormalDiag(loc=mu, scale_diag=jnp.exp(0.5 * bounded))\n\n        return member_distribution(x)")]},
+    {"id": "c17-named-shape-merges-members", "file": _E, "rule": "R4", "find": "        batched_indices = shuffled_indices.reshape(\n            model.n_ensemble, batch_size, -1\n        ).transpose([2, 0, 1])", "replace": "        layout = (batch_size, model.n_ensemble, -1)\n        batched_indices = shuffled_indices.reshape(layout).transpose([2, 1, 0])"},
+    # single input vectors: a wrapper that strips the only (= output) axis of the member's (n_outputs,) log-variance -> (O, O)
+    {"id": "c17-member-bound-vmapped", "file": _E, "rule": "R1-one-variance-per-output", "find": _ALIAS_I, "replace": "        self._safe_log_var_i = nnx.vmap(safe_log_var, in_axes=(0, None, None))\n"},
+    {"id": "c17-ensemble-bound-double-vmapped", "file": _E, "rule": "R1-one-variance-per-output", "find": _ALIAS_E, "replace": _DOUBLE_WRAPPER},
+    {"id": "c17-member-bound-vmapped-in-method", "file": _E, "rule": "R1-one-variance-per-output", "nth": 0, "find": "        log_var_i = " + _BOUND_CALL_I + "\n        return mean_i, jnp.exp(log_var_i)", "replace": "        log_var_i = jax.vmap(self._safe_log_var_i, in_axes=(0, None, None))(\n            log_var_i, self.min_log_var, self.max_log_var\n        )\n        return mean_i, jnp.exp(log_var_i)"},
+    {"id": "c17-alias-maps-bounds", "file": _E, "rule": "R1", "find": _ALIAS_I, "replace": "        self._safe_log_var_i = nnx.vmap(safe_log_var, in_axes=(0, 0, 0))\n"},
+    {"id": "c17-alias-bounds-frozen", "file": _E, "rule": "R3", "find": _ALIAS_I, "replace": "        self._upper_bound = self.max_log_var\n" + _ALIAS_I},
     {"id": "c17-tsinf-scalar-noise", "file": "rl_blox/algorithm/pets.py", "rule": "R1", "edits": [("        dist = dynamics_model.base_distribution(\n", "        mean, var = dynamics_model.base_predict(\n"), ("        delta_obs = dist.sample(seed=sampling_key)[0]", "        noise = jax.random.normal(sampling_key, dtype=mean.dtype)\n        delta_obs = mean[0] + jnp.sqrt(var[0]) * noise")]},
     {"id": "c17-resize-batches", "file": "rl_blox/blox/probabilistic_ensemble.py", "rule": "R4", "find": "        batched_indices = shuffled_indices.reshape(\n            model.n_ensemble, batch_size, -1\n        ).transpose([2, 0, 1])", "replace": "        batched_indices = jnp.resize(shuffled_indices, (model.n_ensemble, shuffled_indices.shape[1] // batch_size, batch_size)).transpose([1, 0, 2])"},
-    {"id": "c17-base-predict-double-vmap", "file": _E, "rule": "R1", "nth": 0, "find": "        log_var_i = self._safe_log_var_i(\n            log_var_i, self.min_log_var, self.max_log_var\n        )\n        return mean_i, jnp.exp(log_var_i)", "replace": "        log_var_i = self._safe_log_var(\n            log_var_i, self.min_log_var, self.max_log_var\n        )\n        return mean_i, jnp.exp(log_var_i)"},
+    {"id": "c17-base-predict-double-vmap", "file": _E, "rule": "R1", "nth": 0, "edits": [(_ALIAS_E, _DOUBLE_WRAPPER), ("        log_var_i = self._safe_log_var_i(\n            log_var_i, self.min_log_var, self.max_log_var\n        )\n        return mean_i, jnp.exp(log_var_i)", "        log_var_i = self._safe_log_var(\n            log_var_i, self.min_log_var, self.max_log_var\n        )\n        return mean_i, jnp.exp(log_var_i)")]},
     {"id": "c17-tsinf-vector-query", "file": _P, "rule": "R1", "find": "            jnp.hstack((obs, act))[jnp.newaxis], model_idx", "replace": "            jnp.hstack((obs, act)), model_idx"},
-    {"id": "c17-wrapper-maps-bounds", "file": _E, "rule": "R1", "find": "        self._safe_log_var_i = nnx.vmap(safe_log_var, in_axes=(0, None, None))", "replace": "        self._safe_log_var_i = nnx.vmap(safe_log_var, in_axes=(0, 0, 0))"},
     {"id": "c17-aggregate-no-epistemic", "file": _E, "rule": "R2", "find": "        return mean, aleatoric_var + epistemic_var", "replace": "        return mean, aleatoric_var"},
     {"id": "c17-aggregate-mean-logvar", "file": _E, "rule": "R2", "find": "        aleatoric_var = jnp.mean(jnp.exp(log_vars), axis=0)", "replace": "        aleatoric_var = jnp.exp(jnp.mean(log_vars, axis=0))"},
     {"id": "c17-aggregate-axis", "file": _E, "rule": "R2", "find": "        epistemic_var = jnp.var(means, axis=0)", "replace": "        epistemic_var = jnp.var(means, axis=1)"},
@@ -996,7 +1383,7 @@ MUTANTS = [
     {"id": "c17-pendulum-torque", "file": _R, "rule": "R6", "find": "PENDULUM_MAX_TORQUE: float = 2.0", "replace": "PENDULUM_MAX_TORQUE: float = 1.0"},
     {"id": "c17-pendulum-no-clip", "file": _R, "rule": "R6", "find": "    act = jnp.clip(act, -PENDULUM_MAX_TORQUE, PENDULUM_MAX_TORQUE)[..., 0]", "replace": "    act = act[..., 0]"},
     {"id": "c17-bound-interval", "file": _E, "rule": "R3", "find": "        return constrained_param(self.raw_min_log_var.value, -20.0, 0.0)", "replace": "        return constrained_param(self.raw_min_log_var.value, -20.0, 10.0)"},
-    {"id": "c17-base-distribution-double-vmap", "file": _E, "rule": "R1", "find": "        log_var_i = self._safe_log_var_i(\n            log_var_i, self.min_log_var, self.max_log_var\n        )\n        std_i", "replace": "        log_var_i = self._safe_log_var(\n            log_var_i, self.min_log_var, self.max_log_var\n        )\n        std_i"},
+    {"id": "c17-base-distribution-double-vmap", "file": _E, "rule": "R1", "edits": [(_ALIAS_E, _DOUBLE_WRAPPER), ("        log_var_i = self._safe_log_var_i(\n            log_var_i, self.min_log_var, self.max_log_var\n        )\n        std_i", "        log_var_i = self._safe_log_var(\n            log_var_i, self.min_log_var, self.max_log_var\n        )\n        std_i")]},
     {"id": "c17-tsinf-model-index-per-sample", "file": _P, "rule": "R1", "find": "    in_axes=(0, None, 0, None, None),\n", "replace": "    in_axes=(0, 0, 0, None, None),\n"},
     {"id": "c17-train-epoch-swapped-data", "file": _E, "rule": "R4", "find": "            optimizer,\n            X,\n            Y,\n            batched_indices,\n", "replace": "            optimizer,\n            Y,\n            X,\n            batched_indices,\n"},
     {"id": "c17-transpose-member-last", "file": _E, "rule": "R4", "find": "        ).transpose([2, 0, 1])", "replace": "        ).transpose([2, 1, 0])"},
@@ -1011,6 +1398,24 @@ MUTANTS = [
     {"id": "c17-aggregate-positional-wrong-axis", "file": _E, "rule": "R2", "find": "        epistemic_var = jnp.var(means, axis=0)", "replace": "        epistemic_var = jnp.var(means, 1)"},
 ]
 BENIGN = [
+    # the member model is queried with the single input vector itself (the methods handle vectors): same distribution, one sample per dimension
+    {"id": "c17-b-tsinf-vector-query-whole-sample", "file": _P, "edits": [("            jnp.hstack((obs, act))[jnp.newaxis], model_idx", "            jnp.hstack((obs, act)), model_idx"), ("        delta_obs = dist.sample(seed=sampling_key)[0]", "        delta_obs = dist.sample(seed=sampling_key)")]},
+    {"id": "c17-b-plans-asserted-shapes", "file": _P, "edits": [("    rewards = reward_model(broadcasted_actions, trajectories[:, :, :-1])\n", "    rewards = reward_model(broadcasted_actions, trajectories[:, :, :-1])\n    chex.assert_shape(rewards, (n_samples, n_particles, plan_horizon))\n"), ("        (n_samples, n_particles, plan_horizon) + action_shape,\n", "        (n_samples, n_particles, plan_horizon, *action_shape),\n")]},
+    {"id": "c17-b-call-match-on-rank", "file": _E, "find": _CALL_DISPATCH, "replace": "        match x.ndim:\n            case 3:\n                joint = self._forward_individual\n            case 2:\n                joint = self._forward_ensemble\n            case _:\n                raise ValueError(f\"{x.shape=}\")\n        means, log_vars = joint(self.ensemble, x)\n"},
+    {"id": "c17-b-member-through-helper-and-closure", "file": _E, "edits": [("    def base_predict(self, x, i):", "    def _member(self, i):\n        graphdef, state = nnx.split(self.ensemble)\n        return nnx.merge(graphdef, jax.tree.map(lambda leaf: leaf[i], state))\n\n    def _member_log_var_fn(self, i):\n        net = self._member(i)\n        lo, hi = self.min_log_var, self.max_log_var\n\n        def run(inputs):\n            mu, raw = net(inputs)\n            return mu, self._safe_log_var_i(raw, lo, hi)\n\n        return run\n\n    def base_predict(self, x, i):"),
+                                                                                   ("        graphdef, state = nnx.split(self.ensemble)\n        state_i = jax.tree.map(lambda x: x[i], state)\n        base_model = nnx.merge(graphdef, state_i)\n        mean_i, log_var_i = base_model(x)\n        log_var_i = " + _BOUND_CALL_I + "\n        return mean_i, jnp.exp(log_var_i)", "        mean_i, log_var_i = self._member_log_var_fn(i)(x)\n        return mean_i, jnp.exp(log_var_i)"),
+                                                                                   ("        graphdef, state = nnx.split(self.ensemble)\n        state_i = jax.tree.map(lambda x: x[i], state)\n        base_model = nnx.merge(graphdef, state_i)\n        mean_i, log_var_i = base_model(x)\n        log_var_i = " + _BOUND_CALL_I + "\n        std_i", "        predict = self._member_log_var_fn(i)\n        mean_i, log_var_i = predict(x)\n        std_i")]},
+    {"id": "c17-b-named-batches-shape", "file": _E, "edits": [("    loss = jnp.inf\n    for t in range(1, n_epochs + 1):", "    layout = [model.n_ensemble, batch_size, -1]\n    loss = jnp.inf\n    for t in range(1, n_epochs + 1):"), ("        batched_indices = shuffled_indices.reshape(\n            model.n_ensemble, batch_size, -1\n        ).transpose([2, 0, 1])", "        batched_indices = jnp.transpose(shuffled_indices.reshape(layout), (2, 0, 1))")]},
+    # a lifted vector: the member methods accept a single input vector by making it a batch of one (shapes (1, O))
+    {"id": "c17-b-vector-lifted-to-batch", "file": _E, "nth": 0, "find": "        mean_i, log_var_i = base_model(x)\n        log_var_i = " + _BOUND_CALL_I + "\n        return mean_i, jnp.exp(log_var_i)", "replace": "        if x.ndim == 1:\n            x = x[jnp.newaxis]\n        mean_i, log_var_i = base_model(x)\n        log_var_i = " + _BOUND_CALL_I + "\n        return mean_i, jnp.exp(log_var_i)"},
+    # the whole-ensemble bound mapped over the member axis only: the inner function still sees (.., O) against the (O,) bounds for batches and vectors
+    {"id": "c17-b-ensemble-bound-vmapped-over-members", "file": _E, "find": _ALIAS_E, "replace": "        self._safe_log_var = nnx.vmap(safe_log_var, in_axes=(0, None, None))\n"},
+    {"id": "c17-b-alias-bound-renamed", "file": _E, "edits": [(_LOCAL_BOUND, "        def _soft_clamp(lv, lo, hi):\n            upper = hi - jax.nn.softplus(hi - lv)\n            return lo + jax.nn.softplus(upper - lo)\n"), (_ALIAS_I, "        self._safe_log_var_i = _soft_clamp\n"), (_ALIAS_E, "        self._safe_log_var = _soft_clamp\n")]},
+    # the bound as a module-level function that a helper method applies to the live bounds
+    {"id": "c17-b-alias-bound-as-method", "file": _E, "all": True, "edits": [(_ALIAS_I, ""), (_ALIAS_E, ""), ("        # TODO move safe_log_var to nnx.Module\n" + _LOCAL_BOUND, ""),
+                                                                            ("class GaussianMLPEnsemble(nnx.Module):\n", "def _soft_clamp(lv, lo, hi):\n    upper = hi - nnx.softplus(hi - lv)\n    return lo + nnx.softplus(upper - lo)\n\n\nclass GaussianMLPEnsemble(nnx.Module):\n"),
+                                                                            ("    def aggregate(self, x: jnp.ndarray)", "    def _bounded(self, raw_log_var):\n        return _soft_clamp(raw_log_var, self.min_log_var, self.max_log_var)\n\n    def aggregate(self, x: jnp.ndarray)"),
+                                                                            (_BOUND_CALL_E, "self._bounded(log_vars)"), (_BOUND_CALL_I, "self._bounded(log_var_i)")]},
     {"id": "c17-b-tsinf-reparam", "file": "rl_blox/algorithm/pets.py", "edits": [("        dist = dynamics_model.base_distribution(\n", "        mean, var = dynamics_model.base_predict(\n"), ("        delta_obs = dist.sample(seed=sampling_key)[0]", "        noise = jax.random.normal(sampling_key, mean[0].shape, dtype=mean.dtype)\n        delta_obs = mean[0] + jnp.sqrt(var[0]) * noise")]},
     # bounding the (E,N,O) ensemble output with the single-vmap wrapper broadcasts (N,O) against (O,): same values, same shapes
     {"id": "c17-b-call-single-vmap", "file": _E, "nth": 0, "find": "        log_vars = self._safe_log_var(\n            log_vars, self.min_log_var, self.max_log_var\n        )\n\n        return means, log_vars", "replace": "        log_vars = self._safe_log_var_i(\n            log_vars, self.min_log_var, self.max_log_var\n        )\n\n        return means, log_vars"},
@@ -1032,7 +1437,6 @@ BENIGN = [
                                                                       ("    mean, log_var = model(X)\n    boundary_loss = model.max_log_var.sum() - model.min_log_var.sum()\n    return gaussian_nll(mean, log_var, Y).sum() + 0.01 * boundary_loss", "    pred = model(X)\n    boundary_loss = jnp.sum(model.max_log_var - model.min_log_var)\n    return jnp.sum(gaussian_nll(mean_pred=pred[0], log_var_pred=pred[1], Y=Y)) + 0.01 * boundary_loss"),
                                                                       ("    inv_var = jnp.exp(-log_var_pred)  # exp(-log_var) == 1.0 / exp(log_var)", "    inv_var = 1.0 / jnp.exp(log_var_pred)")]},
     {"id": "c17-b-bounds-in-mixin", "file": _E, "edits": [("class GaussianMLPEnsemble(nnx.Module):\n", "class _BoundsMixin:\n    @property\n    def min_log_var(self):\n        return constrained_param(self.raw_min_log_var.value, -20.0, 0.0)\n\n    @property\n    def max_log_var(self):\n        return constrained_param(self.raw_max_log_var.value, -4.0, 5.0)\n\n\nclass GaussianMLPEnsemble(_BoundsMixin, nnx.Module):\n"), ("    @property\n    def min_log_var(self):\n        return constrained_param(self.raw_min_log_var.value, -20.0, 0.0)\n\n    @property\n    def max_log_var(self):\n        return constrained_param(self.raw_max_log_var.value, -4.0, 5.0)\n\n    def __call__", "    def __call__")]},
-    {"id": "c17-b-bounding-function-renamed", "file": _E, "edits": [("        def safe_log_var(log_var, min_log_var, max_log_var):\n            log_var = max_log_var - nnx.softplus(max_log_var - log_var)\n            log_var = min_log_var + nnx.softplus(log_var - min_log_var)\n            return log_var", "        def _bound(lv, lo, hi):\n            lv = hi - jax.nn.softplus(hi - lv)\n            return lo + jax.nn.softplus(lv - lo)"), ("nnx.vmap(safe_log_var, in_axes=(0, None, None))", "nnx.vmap(_bound, in_axes=[0, None, None])"), ("        self.raw_min_log_var = nnx.Param(jnp.zeros(self.n_outputs))", "        self.raw_min_log_var: nnx.Param = nnx.Param(jnp.zeros(self.n_outputs))\n        self._n_bounds = self.min_log_var.shape[0]")]},
     {"id": "c17-b-methods-renamed-input", "file": _E, "edits": [("    def aggregate(self, x: jnp.ndarray)", "    def aggregate(self, inputs: jnp.ndarray)"), ("        means, log_vars = self._forward_ensemble(self.ensemble, x)\n\n        log_vars", "        means, log_vars = self._forward_ensemble(self.ensemble, inputs)\n\n        log_vars")]},
     {"id": "c17-b-pendulum-clip-after-index", "file": _R, "edits": [("PENDULUM_MAX_TORQUE: float = 2.0", "MAX_TORQUE: float = 2.0"), ("def pendulum_reward(act: ArrayLike, obs: ArrayLike) -> jnp.ndarray:", "def pendulum_reward(action: ArrayLike, observation: ArrayLike) -> jnp.ndarray:"), ("    act = jnp.asarray(act)  # (..., 1): torque\n    obs = jnp.asarray(obs)  # (..., 3): cos(theta), sin(theta), theta_dot", "    act = jnp.asarray(action)  # (..., 1): torque\n    obs = jnp.asarray(observation)  # (..., 3): cos(theta), sin(theta), theta_dot"),
                                                                     ("    act = jnp.clip(act, -PENDULUM_MAX_TORQUE, PENDULUM_MAX_TORQUE)[..., 0]", "    act = jnp.clip(act[..., 0], min=-MAX_TORQUE, max=MAX_TORQUE)")]},
